@@ -39,6 +39,15 @@ def is_alias_ix(ix):
     return ix[0] in ALIAS_IX
 
 
+def returns_numpy_view(st):
+    """Program steps whose result is a numpy view of the array's own buffer."""
+    if st["op"] == "getitem" and not st.get("dst"):
+        return st["ix"][0] in ("int", "npint")
+    if st["op"] == "read":
+        return st.get("f") in ("iter", "ravel")
+    return st["op"] == "to_numpy"
+
+
 def is_sel_ix(ix):
     """Index forms for which the library returns a lazily selected array (pending view)."""
     t = ix[0]
@@ -259,11 +268,11 @@ def _f_read(st, env):
     if f == "str":
         return str(v)
     if f == "iter":
-        return [np.array(r) for r in v]
+        return list(v)            # the row views themselves: the program keeps them (see Execution.held)
     if f == "tolist":
         return v.tolist()
     if f == "ravel":
-        return np.array(v.ravel())
+        return v.ravel()          # the flat view itself: the program keeps it
     if f == "len":
         return len(v)
     if f == "size":
@@ -309,6 +318,10 @@ class Execution:
         self.dump = {}
         self.alias = {}          # var -> group representative (union-find, syntactic)
         self.opaque = set()      # variables whose contents are uninitialised memory (empty_like)
+        self.held = []           # (step index, numpy view handed out by that step and kept by the program)
+        self.held_vars = set()   # variables of which the program holds a numpy view
+        self.held_dump = {}
+        self._last_raw = None
         self.width = width
         self.stats = {}
         self.probe = probe       # optional callable(execution, event, var) for reach counters
@@ -339,12 +352,14 @@ class Execution:
         for v in step_reads(st):
             if v not in self.env:
                 return ["skipped"]
+        self._last_raw = None
         try:
             r = OPS[st["op"]](st, self.env)
         except HarnessError:
             raise
         except Exception as e:  # the library refused or failed: an observable outcome
             return ["raised", type(e).__name__]
+        self._last_raw = r
         if bind:
             dsts = step_dsts(st)
             if dsts:
@@ -366,6 +381,13 @@ class Execution:
     def step(self, st):
         o = self.apply(st, bind=True)
         self.out.append(o)
+        if o[0] == "ok" and returns_numpy_view(st) and self._last_raw is not None:
+            # The program keeps the numpy view it was given (a row, the flat view, the rectangular view, the rows
+            # of an iteration) and looks at it again at the very end: whose memory it aliases must not depend on
+            # the schedule either.
+            self.held.append((len(self.out) - 1, self._last_raw))
+            self.held_vars.add(st["src"])
+        self._last_raw = None
         return o
 
     # -- injected actions --------------------------------------------------------------------
@@ -420,6 +442,10 @@ class Execution:
         """Replace v by an array freshly constructed from the same rows (never for aliases)."""
         if self.alias_group_size(v) > 1:
             self._count("freshen_skipped_alias")
+            return False
+        if v in self.held_vars:
+            # a numpy view of v's buffer is held by the program: replacing v would cut that intended alias
+            self._count("freshen_skipped_held_view")
             return False
         before = self._pending(v)
         kind = self._view_kind(v)
@@ -478,6 +504,11 @@ class Execution:
                 except Exception as e:
                     d[route] = ["raised", type(e).__name__]
             self.dump[v] = d
+        for i, raw in self.held:
+            try:
+                self.held_dump[str(i)] = ["ok", _norm_result(raw)]
+            except Exception as e:
+                self.held_dump[str(i)] = ["raised", type(e).__name__]
         return self.dump
 
 
@@ -553,6 +584,11 @@ def first_divergence(a, b):
             x, y = da[route], db.get(route)
             if y is None or x[0] != y[0] or (x[0] == "ok" and x[1] != y[1]):
                 return {"where": "dump", "var": v, "route": route, "a": x, "b": y}
+    for i in sorted(set(a.held_dump) | set(b.held_dump), key=int):
+        x, y = a.held_dump.get(i), b.held_dump.get(i)
+        if x is None or y is None or x[0] != y[0] or (x[0] == "ok" and x[1] != y[1]):
+            return {"where": "dump", "var": f"<numpy view returned by step {i}, re-read at the end>", "route": "held",
+                    "a": x, "b": y}
     return None
 
 
